@@ -37,7 +37,8 @@ RULE = ("stream 1: rotate_xyz on 3xN dyadic objects (N=0..6) with special and ra
         "key order shuffled against atom order, 0..n bonded neighbours over trees and rings of residues with "
         "1..2 atom-level bonds per residue edge, neighbours built before / after / never (backmap=False), "
         "pairs of residue nodes sharing one resid (different residue names, equal or foreign atom names, bonded "
-        "neighbours included), "
+        "neighbours included), left-over atom coordinates on residues to be backmapped, a second backmapping pass after "
+        "the residue positions moved, "
         "fudge_coords in {0.4, 1, 0.25, 0.7, 2, 1.5}; stream 3 (thorough and a few quick): templates from the real "
         "GenerateTemplates (with virtual sites) fed to Backmap.  A case is non-trivial when a backmapped "
         "residue has >= 2 atoms; distinct = (stream, generator seed).")
@@ -164,8 +165,17 @@ def gen_molecule_spec(rng, thorough):
                     for res in residues:
                         if types[res["type"]] is tb:
                             res["atom_names"] = [ren[k] for k in res["atom_names"]]
-    return dict(types=types, residues=residues, bonds=bonds, fudge=rng.choice(FUDGES),
-                via=rng.choice(["run_molecule", "run_system"]))
+    out = dict(types=types, residues=residues, bonds=bonds, fudge=rng.choice(FUDGES),
+               via=rng.choice(["run_molecule", "run_system"]))
+    # left-over atom coordinates on residues that ARE to be backmapped (rebuilt residues, centre-only input whose
+    # atoms had coordinates) and a second backmapping pass after the residue positions moved
+    if rng.random() < 0.3:
+        for res in residues:
+            if res["backmap"] and rng.random() < 0.6:
+                res["stale"] = True
+    if rng.random() < 0.25:
+        out["second_pass"] = [[dy(rng, 0, 8), dy(rng, 0, 8), dy(rng, 0, 8)] for _ in residues]
+    return out
 
 
 def build_meta(spec):
@@ -184,6 +194,9 @@ def build_meta(spec):
             if not res["backmap"]:
                 # atoms of residues that are not backmapped already have coordinates
                 attrs["position"] = np.array(res["pos"]) + np.array([0.125 * idx, 0.25, -0.5])
+            elif res.get("stale"):
+                # old coordinates that the backmapping has to replace
+                attrs["position"] = np.array(res["pos"]) + np.array([1.5 - 0.25 * idx, -0.75, 0.125 * idx])
             molecule.add_node(key, **attrs)
             if keys:
                 molecule.add_edge(keys[-1], key)
@@ -244,28 +257,36 @@ class FakeSystem:  # what Processor.run_system needs
         self.molecules = molecules
 
 
-def run_backmap(meta, fudge, via, np_seed):
+def run_backmap(meta, fudge, via, np_seed, second_pass=None):
+    """one pass, or two passes with the residue positions moved in between (judged on the last one)"""
     from polyply.src.backmap import Backmap
     np.random.seed(np_seed)      # random start angles of orient_template
     before = {n: (None if "position" not in meta.molecule.nodes[n] else np.array(meta.molecule.nodes[n]["position"]))
               for n in meta.molecule.nodes}
-    with Recorder() as rec:
-        try:
-            if via == "run_system":
-                Backmap(fudge_coords=fudge).run_system(FakeSystem([meta]))
-            else:
-                Backmap(fudge_coords=fudge).run_molecule(meta)
-            err = None
-        except Exception as exc:  # pylint: disable=broad-except
-            err = "%s: %s" % (type(exc).__name__, exc)
-    return before, rec.per_node, err
+    per_node, err = [], None
+    for moved in ([None] if second_pass is None else [None, second_pass]):
+        if moved is not None:
+            for node, pos in zip(meta.nodes, moved):
+                meta.nodes[node]["position"] = np.array(pos, dtype=float)
+        with Recorder() as rec:
+            try:
+                if via == "run_system":
+                    Backmap(fudge_coords=fudge).run_system(FakeSystem([meta]))
+                else:
+                    Backmap(fudge_coords=fudge).run_molecule(meta)
+            except Exception as exc:  # pylint: disable=broad-except
+                err = "%s: %s" % (type(exc).__name__, exc)
+        per_node = rec.per_node
+        if err is not None:
+            break
+    return before, per_node, err
 
 
 # ------------------------------------------------------------------------------------------ one backmap case
 
-def backmap_case(ctx, stream, replay, meta, fudge, via, np_seed):
+def backmap_case(ctx, stream, replay, meta, fudge, via, np_seed, second_pass=None):
     """runs the real code; returns (requests, judge(answers))"""
-    before, per_node, err = run_backmap(meta, fudge, via, np_seed)
+    before, per_node, err = run_backmap(meta, fudge, via, np_seed, second_pass)
     mol = meta.molecule
     nodes = list(meta.nodes)
     res_info = []
@@ -382,7 +403,10 @@ def backmap_case(ctx, stream, replay, meta, fudge, via, np_seed):
                  stream=stream, residues=nres if nres <= 3 else "4+", max_neighbours=maxdeg if maxdeg <= 2 else "3+",
                  max_atoms=kmax if kmax <= 4 else "5+", fudge=fudge, via=via,
                  unmapped=sum(1 for r in res_info if not r["backmap"]) > 0,
-                 shared_resid=len({r["resid"] for r in res_info}) < nres)
+                 shared_resid=len({r["resid"] for r in res_info}) < nres,
+                 stale_atom_positions=any(b is not None for r in res_info if r["backmap"] for a, _ in r["atoms"]
+                                          for b in [before[a]]),
+                 passes=1 if second_pass is None else 2)
     return reqs, judge
 
 
@@ -463,7 +487,8 @@ def make_case(ctx, replay):
     if stream == "pipeline":
         return pipeline_case(ctx, replay)
     meta = build_meta(replay["spec"])
-    return backmap_case(ctx, "backmap", replay, meta, replay["spec"]["fudge"], replay["spec"]["via"], replay["np_seed"])
+    return backmap_case(ctx, "backmap", replay, meta, replay["spec"]["fudge"], replay["spec"]["via"], replay["np_seed"],
+                        replay["spec"].get("second_pass"))
 
 
 def gen_backmap(ctx):
